@@ -316,6 +316,79 @@ pub fn check_c08(ctx: &Ctx, case: &CrlCase<'_>, crl: &CertificateRevocationList,
 			}
 		},
 	}
+	// full path validation with revocation checking: a leaf whose serial is listed must be rejected as revoked,
+	// a leaf with an unlisted serial must pass (for CRLs that are current at a time the issuer is valid)
+	let at = s.this_update.unix + 1;
+	let eligible = case.id.index % 2 == 0
+		&& s.idp.is_none()
+		&& at < s.next_update.unix
+		&& (1_600_000_100..3_900_000_000).contains(&at)
+		&& !case.key.is_remote()
+		&& x509::strip_zeros(&s.number).len() < 20
+		// a validator associates CRL and issuer through AKI == SKI: only possible when both use one method;
+		// and it wants the issuer to be allowed to sign certificates and CRLs
+		&& case.issuer_kid == s.kid
+		&& (s.issuer_ku == 0 || (s.issuer_ku & (1 << 5) != 0 && s.issuer_ku & (1 << 6) != 0))
+		// validators look the CRL up by a canonicalised issuer name and read every time value in it: keep to
+		// plain names and post-1970 UTCTime/GeneralizedTime instants, the rest is judged by the decoders above
+		&& case.issuer_name.iter().all(|a| {
+			matches!(a.kind, StrKind::Utf8 | StrKind::Printable) && !a.text.trim().is_empty() && a.text.chars().all(|c| c.is_ascii_alphanumeric() || c == ' ') && !matches!(a.ty, DnTy::Custom(_))
+		})
+		&& s.revoked.iter().all(|r| (0..4_000_000_000).contains(&r.time.unix) && r.invalidity.as_ref().map_or(true, |t| (0..4_000_000_000).contains(&t.unix)));
+	if eligible {
+		let listed: Option<&RevSpec> = s.revoked.iter().find(|r| !x509::strip_zeros(&r.serial).is_empty() && r.reason != Some(8) && r.serial.len() <= 19);
+		let mut probes: Vec<(Vec<u8>, bool)> = vec![(vec![0x5a, 0x11, 0x22, (case.id.index % 251) as u8, 0x77], false)];
+		if let Some(l) = listed {
+			probes.push((l.serial.clone(), true));
+		}
+		probes.retain(|(ser, want)| *want || !s.revoked.iter().any(|r| x509::strip_zeros(&r.serial) == x509::strip_zeros(ser)));
+		let crl_file = ctx.out_dir.join(format!("crl-{}-{}.pem", case.id.workload, case.id.index));
+		let wrote = crl.pem().ok().map(|p| std::fs::write(&crl_file, p).is_ok()).unwrap_or(false);
+		for (serial, want_revoked) in probes {
+			let leaf_key = rcgen::KeyPair::generate().expect("keygen");
+			let mut lp = rcgen::CertificateParams::default();
+			lp.serial_number = Some(rcgen::SerialNumber::from_slice(&serial));
+			lp.subject_alt_names = vec![rcgen::SanType::DnsName("leaf.example".try_into().unwrap())];
+			let leaf = match lp.signed_by(&leaf_key, issuer, &case.key.kp) {
+				Ok(c) => c,
+				Err(_) => continue,
+			};
+			if wrote {
+				let mut o = crate::ossl::VerifyOpts::at(at);
+				o.crl_check = true;
+				o.crl_pem_files = vec![crl_file.clone()];
+				match crate::ossl::openssl_verify(leaf.der(), &[], &[issuer.der().to_vec()], &o) {
+					Err(e) => ctx.note(format!("openssl CRL_CHECK harness error: {}", e)),
+					Ok(v) => {
+						ctx.count("eval:openssl_path_validations_with_crl");
+						let revoked = matches!(&v, Err(w) if w.contains("revoked"));
+						if revoked != want_revoked || (v.is_err() && !revoked) {
+							bad(
+								"openssl-path-revocation",
+								format!("X509_verify_cert with CRL_CHECK for serial {}: {:?}, listed={}", hex(&serial), v, want_revoked),
+							);
+						}
+					},
+				}
+			}
+			if crate::ossl::webpki_supports(case.key.sig) && s.issuer_ku == 0 {
+				match crate::ossl::webpki_verify_with_crl(leaf.der(), issuer.der(), crl.der(), at) {
+					Err(e) => ctx.note(format!("webpki revocation harness: {}", e)),
+					Ok(v) => {
+						ctx.count("eval:webpki_path_validations_with_crl");
+						let revoked = matches!(&v, Err(w) if w.contains("CertRevoked"));
+						if revoked != want_revoked || (v.is_err() && !revoked) {
+							bad(
+								"webpki-path-revocation",
+								format!("webpki verify_for_usage with the CRL for serial {}: {:?}, listed={}", hex(&serial), v, want_revoked),
+							);
+						}
+					},
+				}
+			}
+		}
+		let _ = std::fs::remove_file(&crl_file);
+	}
 	// webpki as a second revocation checker, when the CRL is within what webpki accepts
 	if s.number.len() <= 20 && x509::strip_zeros(&s.number).len() < 20 {
 		use webpki::CertRevocationList;
@@ -459,6 +532,10 @@ pub fn gen_case<'a>(pool: &'a [PoolKey], workload: &str, seed: u64, index: u64) 
 		issuer_name = ParamSpec::minimal().subject;
 	}
 	let mut issuer_kid = gen_kid(&mut rng);
+	let align_kid = rng.chance(1, 2);
+	if rng.chance(1, 2) {
+		issuer_name = vec![AttrSpec { ty: DnTy::Cn, kind: StrKind::Utf8, text: format!("crl issuer {}", index) }];
+	}
 	match workload {
 		// reason (none + ten codes) x invalidity date present/absent, single entry and mixed in a list
 		"entry-lattice" => {
@@ -603,6 +680,9 @@ pub fn gen_case<'a>(pool: &'a [PoolKey], workload: &str, seed: u64, index: u64) 
 			};
 		},
 		_ => return None,
+	}
+	if align_kid && workload != "keys" {
+		issuer_kid = spec.kid.clone();
 	}
 	Some(CrlCase {
 		id,
